@@ -10,5 +10,6 @@ func main() {
 		"Check_Arith":     {c00.Setup, c00.Check_Arith},
 		"Check_Bug":       {c00.Setup, c00.Check_Bug},
 		"Check_StdModels": {c00.Setup, c00.Check_StdModels},
+		"Check_UTF8":      {c00.Setup, c00.Check_UTF8},
 	})
 }
